@@ -137,21 +137,36 @@ def r1(p, rep):
 def r2(p, rep):
     for f in c03.api_inners(p):
         calls, fn_names, code_names, bound = c03.compiled_function_calls(p, f)
-        cfg = CFG(f.node)
         gparam = "graph"
         if gparam not in f.params:
             raise AnalysisError(f"unrecognised idiom: {f.qualname} has no `graph` parameter")
+        cfg_f = CFG(f.node)
         for call in calls:
-            # CFG nodes for the statement containing the call (desugared IfExp statements included)
-            nodes = [n for n in cfg.nodes if n.kind == "stmt" and n.ast is not None and any(x is call for x in ast.walk(n.ast))]
-            if not nodes:
-                # desugared copies hold the same expression objects
-                nodes = [n for n in cfg.nodes if n.kind == "stmt" and n.ast is not None and norm(call) in norm(n.ast)]
-            ok = bool(nodes)
-            for cn in nodes:
-                facts = cfg.guards(cn) + [(t, pol) for t, pol in _expr_guards(call)]
-                if not any(isinstance(t, ast.Name) and t.id == gparam and pol is False for t, pol in facts):
-                    ok = False
+            ok = True
+            for g, c in c03.exec_sites(call, f):
+                cfg = cfg_f if g is f else CFG(g.node)
+                # name of the `graph` flag where the compiled function is really called
+                names = {gparam} if g is f else set()
+                if g is not f:
+                    for i, a in enumerate(call.args):
+                        if isinstance(a, ast.Name) and a.id == gparam and i < len(g.params):
+                            names.add(g.params[i])
+                    for k in call.keywords:
+                        if isinstance(k.value, ast.Name) and k.value.id == gparam and k.arg:
+                            names.add(k.arg)
+                nodes = [n for n in cfg.nodes if n.kind == "stmt" and n.ast is not None and any(x is c for x in ast.walk(n.ast))]
+                if not nodes:
+                    nodes = [n for n in cfg.nodes if n.kind == "stmt" and n.ast is not None and norm(c) in norm(n.ast)]
+                site_ok = bool(nodes)
+                for cn in nodes:
+                    facts = cfg.guards(cn) + list(_expr_guards(c))
+                    if not any(isinstance(t, ast.Name) and t.id in names and pol is False for t, pol in facts):
+                        site_ok = False
+                # the guard may also sit at the helper's call site in the wrapper itself
+                if not site_ok and g is not f:
+                    facts = cfg_f.guards_of_ast(call)
+                    site_ok = any(isinstance(t, ast.Name) and t.id == gparam and pol is False for t, pol in facts)
+                ok = ok and site_ok
             rep.add(
                 "C13.R2",
                 f"{f.qualname}:call({c03.callee_label(call)})",
@@ -251,11 +266,16 @@ def r3(p, rep):
 
 def r4(p, rep):
     rep.rule("C13.R4", "tracing happens under depend_on(inputs)", "T-DOM (lexical with)", floor=1)
-    f = p.func("_construct_graph", "frontend.api")
-    calls = [n for n in walk_no_nested(f.node) if isinstance(n, ast.Call) and isinstance(n.func, ast.Name) and n.func.id == "func"]
-    if not calls:
-        raise AnalysisError("unrecognised idiom: no func(*args, **kwargs) call in _construct_graph")
-    for c in calls:
+    f0 = p.func("_construct_graph", "frontend.api")
+    found = []
+    for g in common.with_helpers(p, f0):
+        for n in walk_no_nested(g.node):
+            # the traced operation: a call of a *parameter* with *args, **kwargs
+            if isinstance(n, ast.Call) and isinstance(n.func, ast.Name) and n.func.id in g.params and any(isinstance(a, ast.Starred) for a in n.args) and any(k.arg is None for k in n.keywords):
+                found.append((g, n))
+    if not found:
+        raise AnalysisError("unrecognised idiom: no func(*args, **kwargs) call reachable from _construct_graph")
+    for f, c in found:
         w = enclosing(c, ast.With)
         ok = False
         if w is not None:
@@ -264,7 +284,7 @@ def r4(p, rep):
                 if r and r[0] == "func" and r[1].name == "depend_on":
                     # with the input tracers
                     ok = any(isinstance(a, ast.Starred) for a in it.context_expr.args)
-        rep.add("C13.R4", f"{f.qualname}:trace-call", f"{f.module.rel}:{c.lineno}", ok, "func(...) is traced inside `with tracer.depend_on(*input_tracers)`" if ok else "func(...) is traced outside depend_on: calls without tensor inputs (factories) are hoisted out of the compiled function")
+        rep.add("C13.R4", f"{f0.qualname}:trace-call", f"{f.module.rel}:{c.lineno}", ok, "func(...) is traced inside `with tracer.depend_on(*input_tracers)`" if ok else "func(...) is traced outside depend_on: calls without tensor inputs (factories) are hoisted out of the compiled function")
 
 
 def r5(p, rep):
